@@ -666,4 +666,413 @@ theorem runFrame_check (fin : Frame → Store → Frame) (tx : Tx) (f : Frame) (
       refine ⟨rfl, hh, rfl, hm, hn, .inr ⟨hr, hp, rfl, ?_⟩⟩
       simp [anteFrame, hcache, anteW]
 
+
+/-! ### the block gas meter through runTx -/
+
+theorem consumeBlockGas_block (f : Frame) (hm : f.mode = .deliver) (hb : f.blockGasConsumed = false) :
+    (consumeBlockGas f).block = (f.block.consume f.cur.consumedToLimit).1 ∧
+    ((consumeBlockGas f).pan = none → (f.block.consume f.cur.consumedToLimit).2 = none) := by
+  unfold consumeBlockGas
+  simp only [hm, hb, and_self, if_true]
+  cases hc : (f.block.consume f.cur.consumedToLimit).2 with
+  | some g => simp
+  | none => simp only; split <;> simp
+
+theorem finishDeliver_block (f : Frame) (side : Store) (hm : f.mode = .deliver) (hb : f.blockGasConsumed = false)
+    (hp : f.pan = none) :
+    (finishDeliver f side).cur = f.cur ∧ (finishDeliver f side).startingGas = f.startingGas ∧
+    (((finishDeliver f side).blockGasConsumed = false ∧ (finishDeliver f side).block = f.block) ∨
+     ((finishDeliver f side).blockGasConsumed = true ∧
+      (finishDeliver f side).block = (f.block.consume f.cur.consumedToLimit).1 ∧
+      ((finishDeliver f side).pan = none → (f.block.consume f.cur.consumedToLimit).2 = none))) := by
+  have hc := consumeBlockGas_frame f
+  have hcb := consumeBlockGas_block f hm hb
+  have hflag := consumeBlockGas_consumed f hm
+  by_cases hr : f.result = .ok
+  · cases hcp : (consumeBlockGas f).pan with
+    | some p =>
+      have e : finishDeliver f side = consumeBlockGas f := by simp [finishDeliver, hr, hcp]
+      rw [e]
+      exact ⟨hc.2.2.2.2.2.2.2.2.2.1, hc.2.2.2.2.2.2.2.2.2.2.2.2.2.2, .inr ⟨hflag, hcb.1, hcb.2⟩⟩
+    | none =>
+      have hres : (consumeBlockGas f).result = .ok := by rw [hc.2.2.2.2.2.2.2.1]; exact hr
+      have e : finishDeliver f side =
+          { (consumeBlockGas f) with
+            hook := .ok
+            vm := side ++ (consumeBlockGas f).vm
+            parent := (consumeBlockGas f).cache ++ (consumeBlockGas f).parent
+            cache := []
+            cp := none } := by
+        simp [finishDeliver, hr, hcp, hres]
+      rw [e]
+      exact ⟨hc.2.2.2.2.2.2.2.2.2.1, hc.2.2.2.2.2.2.2.2.2.2.2.2.2.2, .inr ⟨hflag, hcb.1, fun _ => hcb.2 hcp⟩⟩
+  · have e : finishDeliver f side =
+        { f with
+          hook := .fail
+          parent := (f.cp.getD []) ++ f.parent
+          cache := []
+          cp := none } := by
+      simp [finishDeliver, hr, hp]
+    rw [e]
+    exact ⟨rfl, rfl, .inl ⟨hb, rfl⟩⟩
+
+theorem afterMsgs_block (f : Frame) (r : MsgsRes) (hm : f.mode = .deliver) (hb : f.blockGasConsumed = false)
+    (hp : f.pan = none) :
+    (afterMsgs finishDeliver f r).cur = f.cur ∧ (afterMsgs finishDeliver f r).startingGas = f.startingGas ∧
+    (((afterMsgs finishDeliver f r).blockGasConsumed = false ∧ (afterMsgs finishDeliver f r).block = f.block) ∨
+     ((afterMsgs finishDeliver f r).blockGasConsumed = true ∧
+      (afterMsgs finishDeliver f r).block = (f.block.consume f.cur.consumedToLimit).1 ∧
+      ((afterMsgs finishDeliver f r).pan = none → (f.block.consume f.cur.consumedToLimit).2 = none))) := by
+  cases hrp : r.pan with
+  | some p =>
+    have e : afterMsgs finishDeliver f r = { f with pan := some p } := by simp [afterMsgs, hrp]
+    rw [e]
+    exact ⟨rfl, rfl, .inl ⟨hb, rfl⟩⟩
+  | none =>
+    have e : afterMsgs finishDeliver f r = finishDeliver { f with result := r.res } r.env.side := by
+      simp [afterMsgs, hrp, hm]
+    rw [e]
+    exact finishDeliver_block { f with result := r.res } r.env.side hm hb hp
+
+/-- when the body of runTx is left, either the block meter is untouched and still to be
+charged by the defer, or it has been charged (explicit call) with the final tx meter -/
+theorem body_block (tx : Tx) (f : Frame) (hf : Fresh f) :
+    (body finishDeliver tx f).startingGas = f.startingGas ∧
+    (((body finishDeliver tx f).blockGasConsumed = false ∧ (body finishDeliver tx f).block = f.block) ∨
+     ((body finishDeliver tx f).blockGasConsumed = true ∧
+      (body finishDeliver tx f).block = (f.block.consume (body finishDeliver tx f).cur.consumedToLimit).1 ∧
+      ((body finishDeliver tx f).pan = none →
+        (f.block.consume (body finishDeliver tx f).cur.consumedToLimit).2 = none))) := by
+  unfold body
+  cases preAnte tx with
+  | some r => exact ⟨rfl, .inl ⟨hf.bgc, rfl⟩⟩
+  | none =>
+    simp only
+    cases (runAnte tx.ante tx.gasWanted f.parent f.cur).out with
+    | pan p => exact ⟨rfl, .inl ⟨hf.bgc, rfl⟩⟩
+    | abort oog => exact ⟨rfl, .inl ⟨hf.bgc, rfl⟩⟩
+    | done =>
+      simp only
+      generalize hA : anteFrame tx f (runAnte tx.ante tx.gasWanted f.parent f.cur) = fa
+      have ha_mode : fa.mode = .deliver := by rw [← hA]; exact hf.mode
+      have ha_pan : fa.pan = none := by rw [← hA]; exact hf.pan
+      have ha_flag : fa.blockGasConsumed = false := by rw [← hA]; exact hf.bgc
+      have ha_block : fa.block = f.block := by rw [← hA]; rfl
+      have ha_sg : fa.startingGas = f.startingGas := by rw [← hA]; rfl
+      have e : afterAnte finishDeliver tx fa =
+          afterMsgs finishDeliver (msgsFrame tx fa (runMsgs tx.msgs (msgsEnv fa) 0))
+            (runMsgs tx.msgs (msgsEnv fa) 0) := by
+        simp [afterAnte, ha_mode]
+      rw [e]
+      generalize runMsgs tx.msgs (msgsEnv fa) 0 = r
+      have hmb : (msgsFrame tx fa r).block = f.block := ha_block
+      have := afterMsgs_block (msgsFrame tx fa r) r ha_mode ha_flag ha_pan
+      refine ⟨this.2.1.trans ha_sg, ?_⟩
+      rcases this.2.2 with h | h
+      · exact .inl ⟨h.1, h.2.trans hmb⟩
+      · refine .inr ⟨h.1, ?_, ?_⟩
+        · rw [h.2.1, this.1, hmb]
+        · intro hp; have h2 := h.2.2 hp; rw [this.1, ← hmb]; exact h2
+
+/-- after body and defers the block meter has been charged exactly once, with
+`GasConsumedToLimit` of the tx's final gas meter; an OK result means that charge
+returned normally -/
+theorem runFrame_block (tx : Tx) (f : Frame) (hf : Fresh f) :
+    (runFrame finishDeliver tx f).block =
+      (f.block.consume (runFrame finishDeliver tx f).cur.consumedToLimit).1 ∧
+    ((runFrame finishDeliver tx f).res = .ok →
+      (f.block.consume (runFrame finishDeliver tx f).cur.consumedToLimit).2 = none) := by
+  rw [runFrame_eq]
+  have pf := post_frame (body finishDeliver tx f)
+  have hcur : (post (body finishDeliver tx f)).out.cur = (body finishDeliver tx f).cur := pf.2.2.2.2.2.1
+  have hbm : (body finishDeliver tx f).mode = .deliver := by
+    cases body_cases tx f hf with
+    | noAnte _ _ _ _ _ h6 _ => exact h6
+    | committed _ _ _ _ _ _ _ _ h9 => exact h9
+    | handled _ _ _ _ _ _ _ h8 => exact h8
+    | pending _ _ _ _ _ _ _ h8 => exact h8
+  have h3 := deferWriteCheckpoint_frame (body finishDeliver tx f)
+  have hrec := deferRecover_frame (deferConsumeBlockGas (deferWriteCheckpoint (body finishDeliver tx f)))
+  have hblock : (post (body finishDeliver tx f)).out.block =
+      (consumeBlockGas (deferWriteCheckpoint (body finishDeliver tx f))).block := hrec.2.2.2.2.2.2.2.2.1
+  rw [hcur, hblock]
+  have hres : (post (body finishDeliver tx f)).out.res = (post (body finishDeliver tx f)).result := rfl
+  rw [hres]
+  rcases (body_block tx f hf).2 with h | h
+  · have hflag : (deferWriteCheckpoint (body finishDeliver tx f)).blockGasConsumed = false := by
+      rw [h3.2.2.2.2.2.2.1]; exact h.1
+    have hmode : (deferWriteCheckpoint (body finishDeliver tx f)).mode = .deliver := by rw [h3.2.2.1]; exact hbm
+    have hcb := consumeBlockGas_block _ hmode hflag
+    rw [h3.2.2.2.2.2.2.2.2.2.2.2.1, h3.2.2.2.2.2.2.2.1, h.2] at hcb
+    exact ⟨hcb.1, fun hok => hcb.2 (post_result_ok _ hok).2.2⟩
+  · have hflag : (deferWriteCheckpoint (body finishDeliver tx f)).blockGasConsumed = true := by
+      rw [h3.2.2.2.2.2.2.1]; exact h.1
+    rw [consumeBlockGas_noop _ hflag, h3.2.2.2.2.2.2.2.2.2.2.2.1]
+    exact ⟨h.2.1, fun hok => h.2.2 (post_result_ok _ hok).2.1⟩
+
+
+/-! ### the tx gas meter (production shape: the ante installs `NewGasMeter(gasWanted)`) -/
+
+/-- a basic meter of limit `L` with `0 ≤ consumed` -/
+def IsBasicL (m : Meter) (L : Int) : Prop := ∃ b, m = .basic b ∧ b.limit = L ∧ 0 ≤ L ∧ 0 ≤ b.consumed
+/-- … that is not past its limit -/
+def Within (m : Meter) (L : Int) : Prop := ∃ b, m = .basic b ∧ b.limit = L ∧ 0 ≤ L ∧ 0 ≤ b.consumed ∧ b.consumed ≤ L
+
+theorem Within.isBasicL {m : Meter} {L : Int} (h : Within m L) : IsBasicL m L := by
+  obtain ⟨b, h1, h2, h3, h4, _⟩ := h; exact ⟨b, h1, h2, h3, h4⟩
+
+/-- running steps on a basic meter within its limit: the meter stays basic with the same
+limit, and it is past the limit only if the step list ended in an out-of-gas panic -/
+theorem runSteps_basic (mirror : Bool) (steps : List Step) (e : Env) (L : Int) (h : Within e.meter L) :
+    IsBasicL (runSteps mirror steps e).1.meter L ∧
+    ((runSteps mirror steps e).2 ≠ .pan .oog → Within (runSteps mirror steps e).1.meter L) := by
+  induction steps generalizing e with
+  | nil => exact ⟨h.isBasicL, fun _ => h⟩
+  | cons s rest ih =>
+    cases s with
+    | write k v => simp only [runSteps]; exact ih _ h
+    | del k => simp only [runSteps]; exact ih _ h
+    | consume n =>
+      obtain ⟨b, hb, hl, hL, h0, hle⟩ := h
+      simp only [runSteps, hb, Meter.consume]
+      rcases Basic.consume_cases b n with ⟨_, hc⟩ | ⟨_, _, hc⟩ | ⟨hn, _, hc⟩
+      · rw [hc]; simp only [toPan]
+        exact ⟨⟨b, rfl, hl, hL, h0⟩, fun _ => ⟨b, rfl, hl, hL, h0, hle⟩⟩
+      · rw [hc]; simp only [toPan]
+        exact ⟨⟨b, rfl, hl, hL, h0⟩, fun _ => ⟨b, rfl, hl, hL, h0, hle⟩⟩
+      · rw [hc]
+        by_cases hgt : b.consumed + n > b.limit
+        · simp only [hgt, if_true, toPan]
+          exact ⟨⟨_, rfl, hl, hL, by simp; omega⟩, fun hne => absurd rfl hne⟩
+        · simp only [hgt, if_false]
+          exact ih _ ⟨_, rfl, hl, hL, by simp; omega, by simp; omega⟩
+    | refund n =>
+      obtain ⟨b, hb, hl, hL, h0, hle⟩ := h
+      simp only [runSteps, hb, Meter.refund]
+      by_cases hn : n < 0
+      · have hr : b.refund n = (b, some .negative) := by simp [Basic.refund, hn]
+        rw [hr]; simp only [toPan]
+        exact ⟨⟨b, rfl, hl, hL, h0⟩, fun _ => ⟨b, rfl, hl, hL, h0, hle⟩⟩
+      · have hr : b.refund n =
+            ({ b with consumed := b.consumed - (if n > b.consumed then b.consumed else n) }, none) := by
+          simp [Basic.refund, hn]
+        rw [hr]
+        simp only
+        refine ih _ ⟨_, rfl, hl, hL, ?_, ?_⟩
+        · simp only; split <;> omega
+        · simp only; split <;> omega
+    | require k v =>
+      simp only [runSteps]
+      split
+      · exact ih _ h
+      · exact ⟨h.isBasicL, fun _ => h⟩
+    | fail => simp only [runSteps]; exact ⟨h.isBasicL, fun _ => h⟩
+    | panic => simp only [runSteps]; exact ⟨h.isBasicL, fun _ => h⟩
+    | oogPanic => simp only [runSteps]; exact ⟨h.isBasicL, fun _ => h⟩
+    | zeroCtx => simp only [runSteps]; exact ⟨h.isBasicL, fun _ => h⟩
+    | abortNoErr => simp only [runSteps]; exact ⟨h.isBasicL, fun _ => h⟩
+
+theorem runMsgs_basic (msgs : List Msg) (e : Env) (n : Nat) (L : Int) (h : Within e.meter L) :
+    IsBasicL (runMsgs msgs e n).env.meter L ∧
+    ((runMsgs msgs e n).pan ≠ some .oog → Within (runMsgs msgs e n).env.meter L) := by
+  induction msgs generalizing e n with
+  | nil => exact ⟨h.isBasicL, fun _ => h⟩
+  | cons m rest ih =>
+    unfold runMsgs
+    by_cases hroute : m.routable = true
+    · simp only [hroute, Bool.not_true, Bool.false_eq_true, if_false]
+      have hs := runSteps_basic true m.steps e L h
+      cases ho : (runSteps true m.steps e).2 with
+      | ok => simp only; exact ih _ _ (hs.2 (by rw [ho]; simp))
+      | err => simp only; exact ⟨hs.1, fun _ => hs.2 (by rw [ho]; simp)⟩
+      | pan p =>
+        simp only
+        refine ⟨hs.1, fun hne => hs.2 ?_⟩
+        rw [ho]; intro hp; apply hne; cases hp; rfl
+      | zero => simp only; exact ⟨hs.1, fun _ => hs.2 (by rw [ho]; simp)⟩
+      | noerr => simp only; exact ⟨hs.1, fun _ => hs.2 (by rw [ho]; simp)⟩
+    · simp only [hroute, Bool.not_false, if_true]
+      exact ⟨h.isBasicL, fun _ => h⟩
+
+/-- an ante that installs `NewGasMeter(gasWanted)` and returns without abort hands
+over a basic meter of that limit, not past it -/
+theorem runAnte_done_basic (a : Ante) (gw : Int) (parent : Store) (inc : Meter) (hk : a.kind = .basic)
+    (h : (runAnte a gw parent inc).out = .done) : Within (runAnte a gw parent inc).cur gw := by
+  unfold runAnte at h ⊢
+  cases h1 : (runSteps false a.pre (anteEnv parent inc)).2 with
+  | ok =>
+    simp only [h1] at h ⊢
+    cases hi : installMeter a.kind gw (runSteps false a.pre (anteEnv parent inc)).1.meter with
+    | error e => simp [hi] at h
+    | ok cur =>
+      simp only [hi, anteAfterInstall] at h ⊢
+      have h2 := anteOutOf_done _ _ h
+      have hcur : Within cur gw := by
+        simp only [installMeter, hk, Basic.new] at hi
+        by_cases hneg : gw < 0
+        · simp [hneg, Except.map] at hi
+        · simp only [hneg, if_false, Except.map, Except.ok.injEq] at hi
+          rw [← hi]
+          exact ⟨_, rfl, rfl, by omega, by simp, by simp; omega⟩
+      exact (runSteps_basic false a.steps _ gw hcur).2 (by rw [h2]; simp)
+  | err => simp [h1, anteOutOf] at h
+  | pan p => cases p <;> simp [h1, anteOutOf] at h
+  | zero => simp [h1, anteOutOf] at h
+  | noerr => simp [h1, anteOutOf] at h
+
+theorem finishDeliver_gw (f : Frame) (side : Store) : (finishDeliver f side).gasWanted = f.gasWanted := by
+  have hc := consumeBlockGas_frame f
+  unfold finishDeliver
+  by_cases hr : f.result = .ok
+  · simp only [hr, if_true]
+    cases (consumeBlockGas f).pan with
+    | some p => exact hc.2.2.2.2.2.2.2.2.2.2.1
+    | none => simp only; split <;> exact hc.2.2.2.2.2.2.2.2.2.2.1
+  · simp only [hr, if_false]
+    cases f.pan <;> simp [hr]
+
+theorem afterMsgs_gw (f : Frame) (r : MsgsRes) : (afterMsgs finishDeliver f r).gasWanted = f.gasWanted := by
+  unfold afterMsgs
+  cases r.pan with
+  | some p => rfl
+  | none =>
+    simp only
+    by_cases hm : f.mode = .deliver
+    · simp only [hm, if_true]; exact finishDeliver_gw _ _
+    · simp [hm]
+
+theorem afterMsgs_pan_some (f : Frame) (r : MsgsRes) (p : Pan) (h : r.pan = some p) :
+    afterMsgs finishDeliver f r = { f with pan := some p } := by simp [afterMsgs, h]
+
+/-- the tx gas meter when the body of runTx is left (production-shaped ante that completed):
+within the limit, or past it with an out-of-gas panic in flight and the block not yet charged -/
+theorem body_gas (tx : Tx) (f : Frame) (hf : Fresh f) (hk : tx.ante.kind = .basic)
+    (hd : (body finishDeliver tx f).anteDone = true) :
+    (body finishDeliver tx f).gasWanted = tx.gasWanted ∧
+    (Within (body finishDeliver tx f).cur tx.gasWanted ∨
+     (IsBasicL (body finishDeliver tx f).cur tx.gasWanted ∧ (body finishDeliver tx f).pan = some .oog ∧
+      (body finishDeliver tx f).blockGasConsumed = false ∧ (body finishDeliver tx f).block = f.block ∧
+      (body finishDeliver tx f).startingGas = f.startingGas ∧ (body finishDeliver tx f).mode = .deliver)) := by
+  unfold body at hd ⊢
+  cases hpre : preAnte tx with
+  | some r => simp [hpre, hf.anteDone] at hd
+  | none =>
+    simp only [hpre] at hd ⊢
+    cases hout : (runAnte tx.ante tx.gasWanted f.parent f.cur).out with
+    | pan p => simp [hout, hf.anteDone] at hd
+    | abort oog => simp [hout, hf.anteDone] at hd
+    | done =>
+      have hw := runAnte_done_basic _ _ _ _ hk hout
+      simp only
+      generalize hA : anteFrame tx f (runAnte tx.ante tx.gasWanted f.parent f.cur) = fa
+      have ha_mode : fa.mode = .deliver := by rw [← hA]; exact hf.mode
+      have ha_pan : fa.pan = none := by rw [← hA]; exact hf.pan
+      have ha_flag : fa.blockGasConsumed = false := by rw [← hA]; exact hf.bgc
+      have ha_block : fa.block = f.block := by rw [← hA]; rfl
+      have ha_sg : fa.startingGas = f.startingGas := by rw [← hA]; rfl
+      have ha_gw : fa.gasWanted = tx.gasWanted := by rw [← hA]; rfl
+      have ha_cur : Within fa.cur tx.gasWanted := by rw [← hA]; exact hw
+      have e : afterAnte finishDeliver tx fa =
+          afterMsgs finishDeliver (msgsFrame tx fa (runMsgs tx.msgs (msgsEnv fa) 0))
+            (runMsgs tx.msgs (msgsEnv fa) 0) := by
+        simp [afterAnte, ha_mode]
+      rw [e]
+      have hmb := runMsgs_basic tx.msgs (msgsEnv fa) 0 tx.gasWanted ha_cur
+      generalize runMsgs tx.msgs (msgsEnv fa) 0 = r at hmb
+      have hgw : (afterMsgs finishDeliver (msgsFrame tx fa r) r).gasWanted = tx.gasWanted := by
+        rw [afterMsgs_gw]; exact ha_gw
+      refine ⟨hgw, ?_⟩
+      have hblk := afterMsgs_block (msgsFrame tx fa r) r ha_mode ha_flag ha_pan
+      have hcur : (afterMsgs finishDeliver (msgsFrame tx fa r) r).cur = r.env.meter := hblk.1
+      rw [hcur]
+      cases hrp : r.pan with
+      | none => exact .inl (hmb.2 (by rw [hrp]; simp))
+      | some p =>
+        cases p with
+        | other => exact .inl (hmb.2 (by rw [hrp]; simp))
+        | oog =>
+          rw [afterMsgs_pan_some _ _ _ hrp]
+          exact .inr ⟨hmb.1, rfl, ha_flag, ha_block, ha_sg, ha_mode⟩
+
+/-- the block meters BeginBlock installs -/
+def BlockSimple (m : Meter) : Prop := (∃ b, m = .basic b) ∨ (∃ c, m = .infinite c)
+
+/-- charging a basic or infinite meter with a non-negative amount that cannot overflow
+int64 adds the amount and either returns normally or panics out-of-gas -/
+theorem consume_simple (m : Meter) (T : Int) (hb : BlockSimple m) (hT : 0 ≤ T)
+    (hno : inI64 (m.gasConsumed + T) = true) :
+    (m.consume T).1.gasConsumed = m.gasConsumed + T ∧
+    ((m.consume T).2 = none ∨ (m.consume T).2 = some .oog) := by
+  rcases hb with ⟨b, hb⟩ | ⟨c, hb⟩
+  · rw [hb] at hno ⊢
+    simp only [Meter.gasConsumed] at hno
+    simp only [Meter.consume, Meter.gasConsumed]
+    rw [Basic.consume_fits b _ hT hno]
+    refine ⟨rfl, ?_⟩
+    by_cases hgt : b.consumed + T > b.limit <;> simp [hgt]
+  · rw [hb] at hno ⊢
+    simp only [Meter.gasConsumed] at hno
+    simp [Meter.consume, Meter.gasConsumed, hno]
+
+/-- an out-of-gas panic in flight survives the deferred block charge (it can only be
+replaced by another out-of-gas panic) when that charge cannot overflow int64 -/
+theorem consumeBlockGas_keeps_oog (f : Frame) (hp : f.pan = some .oog) (hm : f.mode = .deliver)
+    (hb : BlockSimple f.block) (hT : 0 ≤ f.cur.consumedToLimit)
+    (hno : inI64 (f.block.gasConsumed + f.cur.consumedToLimit) = true)
+    (hsg : f.startingGas ≤ f.block.gasConsumed) :
+    (consumeBlockGas f).pan = some .oog := by
+  have hc := consume_simple f.block f.cur.consumedToLimit hb hT hno
+  unfold consumeBlockGas
+  by_cases hflag : f.blockGasConsumed = false
+  · simp only [hm, hflag, and_self, if_true]
+    cases h2 : (f.block.consume f.cur.consumedToLimit).2 with
+    | some g =>
+      rcases hc.2 with h | h
+      · rw [h2] at h; cases h
+      · rw [h2] at h; cases h; rfl
+    | none =>
+      have : ¬ ((f.block.consume f.cur.consumedToLimit).1.gasConsumed < f.startingGas) := by
+        rw [hc.1]; omega
+      simp [this, hp]
+  · have : f.blockGasConsumed = true := by simpa using hflag
+    simp [this, hp]
+
+/-- GasUsed ≤ GasWanted for every outcome except out-of-gas (production-shaped ante that
+completed; the block charge cannot overflow int64) -/
+theorem runFrame_gas (tx : Tx) (f : Frame) (hf : Fresh f) (hk : tx.ante.kind = .basic)
+    (hb : BlockSimple f.block) (h0 : 0 ≤ f.block.gasConsumed)
+    (hno : inI64 (f.block.gasConsumed + tx.gasWanted) = true) (hsg : f.startingGas ≤ f.block.gasConsumed)
+    (hd : (runFrame finishDeliver tx f).anteDone = true) (hne : (runFrame finishDeliver tx f).res ≠ .oog) :
+    (runFrame finishDeliver tx f).gasUsed ≤ (runFrame finishDeliver tx f).gasWanted := by
+  rw [runFrame_eq] at hd hne ⊢
+  have pf := post_frame (body finishDeliver tx f)
+  have hd' : (body finishDeliver tx f).anteDone = true := by
+    have : (post (body finishDeliver tx f)).out.anteDone = (post (body finishDeliver tx f)).anteDone := rfl
+    rw [this, pf.2.2.1] at hd; exact hd
+  have hg := body_gas tx f hf hk hd'
+  have hgu : (post (body finishDeliver tx f)).out.gasUsed = (body finishDeliver tx f).cur.gasConsumed := by
+    show (post (body finishDeliver tx f)).cur.gasConsumed = _; rw [pf.2.2.2.2.2.1]
+  have hgw : (post (body finishDeliver tx f)).out.gasWanted = tx.gasWanted := by
+    show (post (body finishDeliver tx f)).gasWanted = _; rw [pf.2.2.2.2.2.2.1]; exact hg.1
+  rw [hgu, hgw]
+  rcases hg.2 with ⟨b, hb1, hb2, _, _, hb5⟩ | ⟨⟨b, hb1, hb2, hb3, hb4⟩, hpan, hflag, hblock, hsg', hmode⟩
+  · rw [hb1]; simp only [Meter.gasConsumed]; omega
+  · exfalso; apply hne
+    show (post (body finishDeliver tx f)).result = .oog
+    have h3 := deferWriteCheckpoint_frame (body finishDeliver tx f)
+    simp only [post, deferConsumeBlockGas, deferRecover_result]
+    have hT : (body finishDeliver tx f).cur.consumedToLimit = (if b.consumed > b.limit then b.limit else b.consumed) := by
+      rw [hb1]; simp only [Meter.consumedToLimit]; exact Basic.consumedToLimit_eq b
+    have hkeep := consumeBlockGas_keeps_oog (deferWriteCheckpoint (body finishDeliver tx f))
+      (by rw [h3.2.2.2.2.1]; exact hpan) (by rw [h3.2.2.1]; exact hmode)
+      (by rw [h3.2.2.2.2.2.2.2.2.2.2.2.1, hblock]; exact hb)
+      (by rw [h3.2.2.2.2.2.2.2.1, hT]; split <;> omega)
+      (by
+        rw [h3.2.2.2.2.2.2.2.2.2.2.2.1, hblock, h3.2.2.2.2.2.2.2.1, hT]
+        rw [inI64_iff] at hno ⊢
+        unfold minI64 maxI64 at *
+        split <;> omega)
+      (by rw [h3.2.2.2.2.2.2.2.2.2.2.2.2.2, h3.2.2.2.2.2.2.2.2.2.2.2.1, hblock, hsg']; exact hsg)
+    rw [hkeep]
+
 end GnoVerif.C02
